@@ -7,6 +7,7 @@ from pbt.samples import derived_from_used_parent, call, raised, build, expand, f
 
 ID = 'C06'
 LEVEL = 'exploration'
+ENGINES = ['hypothesis', 'curated large sample']
 RULE = ('Hypothesis draws a sample or plain array (1..6 channels), k distinct curves x -> c_i*sign(x)*|x|^p_i, a '
         'duplicate-free list of k curve channels in drawn order (names/positions mixed, or the default "all '
         'channels"), a request (subset, order, spelling; scalar; None), a permutation of the (curve, channel) '
@@ -47,11 +48,17 @@ def _case(draw):
         req = draw(st.lists(st.sampled_from(sc), min_size=0, max_size=k, unique=True))       # incl. the empty request
         if req and draw(st.sampled_from([False, False, True])):
             req = req + [draw(st.sampled_from(req))]          # a channel may be named twice: it is converted once
+    curve_kind = draw(st.sampled_from(['power', 'power', 'power', 'tanh', 'affine']))
+    if spec['datatype'] == 'F' and spec['n'] > 0 and draw(st.sampled_from([True, False, False])):
+        # floating-point files can hold infinite and not-a-number readings; a curve is applied to them like to any other
+        spec['specials'] = list(spec.get('specials') or []) + [[draw(st.integers(0, spec['n'] - 1)), draw(st.integers(0, D - 1)),
+                                                                 draw(st.sampled_from([float('inf'), float('-inf'), float('nan')]))]
+                                                                for _ in range(draw(st.integers(1, 3)))]
     err = draw(st.sampled_from([None] * 12 + ['uncovered', 'len_mismatch']))
     uncovered = [j for j in range(D) if j not in sc]
     if err == 'uncovered' and not uncovered:
         err = 'len_mismatch'
-    return dict(spec=spec, container=container, default_sc=default_sc, sc=sc, sc_spell=[draw(st.booleans()) for _ in sc],
+    return dict(curve_kind=curve_kind, spec=spec, container=container, default_sc=default_sc, sc=sc, sc_spell=[draw(st.booleans()) for _ in sc],
                 curves=[[c, p] for c, p in zip(cs, ps)], form=form, req=req, req_spell=[draw(st.sampled_from(['name', 'pos', 'neg', 'name', 'pos'])) for _ in req],
                 perm_seed=draw(st.integers(0, 2 ** 16)), err=err, seq=draw(st.sampled_from(['list', 'list', 'tuple'])), derived=draw(st.sampled_from([None, None, None, ['slice', 1], ['slice', 2], ['list', 1], ['perm', 1], ['permname', 2]])), via_get_transform=draw(st.integers(0, 3)) == 0,
                 to_rfi_first=draw(st.booleans()))
@@ -61,7 +68,38 @@ def strategy(tier):
     return _case()
 
 
-def _curve(c, p):
+# a sample with more events than any generated one (and than 2**16), so that conversion in blocks of events is
+# exercised beyond the first block
+def curated():
+    spec = dict(version='FCS3.0', datatype='I', byteord='1,2,3,4', widths=[16, 16, 16], ranges=[1024, 1024, 65536],
+                names=['FSC-H', 'FL1-H', 'FL2-H'], pne=['0,0', '0,0', '0,0'], png=[None, None, None], pnv=[None] * 3, pns=[None] * 3,
+                n=70001, data_seed=5)
+    base = dict(spec=spec, container='sample', default_sc=False, sc=[1, 2], sc_spell=[True, False], curves=[[2.0, 1.1], [0.5, 0.9]],
+                form='list', req=[2, 1], req_spell=['name', 'pos'], perm_seed=3, err=None, seq='list', derived=None,
+                via_get_transform=False, to_rfi_first=False)
+    return [base, dict(base, container='array', req=[1], req_spell=['pos'], form='scalar')]
+
+
+def exhaustive_jobs(tier):
+    return curated()
+
+
+def run_job(job):
+    from pbt.runner import Obs
+    obs = Obs()
+    try:
+        check(job, obs)
+    except Exception as e:
+        obs.failures.append(('crash', 'curated large sample: %s: %s' % (type(e).__name__, e)))
+    return dict(evaluations=1, nontrivial=1, failures=[(t, m, job) for t, m in obs.failures[:5]],
+                labels={'curated:70001_events': 1}, claims=dict(obs.claims), samples=[], complete=True)
+
+
+def _curve(c, p, kind='power'):
+    if kind == 'tanh':          # a saturating curve: maps an infinite reading to a finite value
+        return lambda x: c * np.tanh(np.asarray(x, dtype=float) * (p / 500.0))
+    if kind == 'affine':
+        return lambda x: c * np.asarray(x, dtype=float) + p
     return lambda x: c * np.sign(x) * np.abs(x) ** p
 
 
@@ -85,7 +123,9 @@ def check(case, obs):
     sp = lambda j, how: _spell(j, how, names, is_array)
     sc_ch = [sp(j, s) for j, s in zip(sc, case['sc_spell'])]
     req_ch = [sp(j, s) for j, s in zip(req, case['req_spell'])]
-    curves = [_curve(c, p) for c, p in case['curves']]
+    ckind = case.get('curve_kind', 'power')
+    curves = [_curve(c, p, ckind) for c, p in case['curves']]
+    obs.label('curve:' + ckind)
     form = case['form']
     ch_arg = None if form == 'none' else (req_ch[0] if form == 'scalar' else req_ch)
     sc_arg = None if case['default_sc'] else sc_ch
@@ -131,11 +171,16 @@ def check(case, obs):
     for j in range(D):
         if j in req:
             c, p = case['curves'][sc.index(j)]
-            exp = np.array([c * (1.0 if v > 0 else (-1.0 if v < 0 else 0.0)) * abs(float(v)) ** p for v in x[:, j]])
-            obs.claim('paired', bool(np.all(np.abs(res[:, j] - exp) <= 1e-12 * np.abs(exp))),
+            if ckind == 'power' and bool(np.all(np.isfinite(x[:, j]))):
+                exp = np.array([c * (1.0 if v > 0 else (-1.0 if v < 0 else 0.0)) * abs(float(v)) ** p for v in x[:, j]])
+            else:
+                # the curve applied to each reading on its own (also to infinite and not-a-number readings)
+                with np.errstate(all='ignore'):
+                    exp = np.array([float(curves[sc.index(j)](np.float64(v))) for v in x[:, j]])
+            obs.claim('paired', bool(np.all((np.abs(res[:, j] - exp) <= 1e-12 * np.abs(exp)) | (res[:, j] == exp) | (np.isnan(res[:, j]) & np.isnan(exp)))),
                       lambda: 'channel %d (%s) was not converted with its own curve (c=%r, p=%r)' % (j, names[j], c, p))
         else:
-            obs.claim('others', bool(np.array_equal(res[:, j], x[:, j])), lambda: 'unrequested channel %d changed' % j)
+            obs.claim('others', bool(np.array_equal(res[:, j], x[:, j], equal_nan=True)), lambda: 'unrequested channel %d changed' % j)
     if not is_array:
         same = [f for f in fp_diff(fingerprint(d), fingerprint(out)) if f not in ('data', 'range', 'kind', 'itemsize')]
         obs.claim('shape_meta', not same and type(out) is type(d), lambda: 'metadata changed by to_mef: %r' % same)
@@ -147,7 +192,7 @@ def check(case, obs):
     obs.nontrivial = k >= 2 and (order_differs or (mixed and not is_array))
 
     def same_result(o, what):
-        ok = (not raised(o) and np.asarray(o).shape == res.shape and np.array_equal(np.asarray(o), res)
+        ok = (not raised(o) and np.asarray(o).shape == res.shape and np.array_equal(np.asarray(o), res, equal_nan=True)
               and (is_array or [list(r) for r in o.range()] == [list(r) for r in out.range()]))
         obs.claim('perm', ok, lambda: '%s differs (%r)' % (what, o if raised(o) else ''))
 
@@ -201,10 +246,10 @@ def check(case, obs):
                     for j in range(D):
                         colv = r2[:, D - 1 - j]
                         if j in req:
-                            c, p = case['curves'][sc.index(j)]
-                            exp = c * np.sign(x[:, j]) * np.abs(x[:, j]) ** p
-                            ok2 = ok2 and bool(np.all(np.abs(colv - exp) <= 1e-12 * np.abs(exp)))
+                            with np.errstate(all='ignore'):
+                                exp = np.asarray(curves[sc.index(j)](x[:, j]), dtype=float)
+                            ok2 = ok2 and bool(np.all((np.abs(colv - exp) <= 1e-12 * np.abs(exp)) | (colv == exp) | (np.isnan(colv) & np.isnan(exp))))
                         else:
-                            ok2 = ok2 and bool(np.array_equal(colv, x[:, j]))
+                            ok2 = ok2 and bool(np.array_equal(colv, x[:, j], equal_nan=True))
                 obs.claim('partial', ok2, lambda: 'the callable returned by get_transform_fxn, applied by name to a sample with reversed '
                           'column order: %r' % (o2 if raised(o2) else 'wrong columns converted',))
